@@ -5,6 +5,7 @@ repo = sys.argv[1] if len(sys.argv) > 1 else "/repo"
 base = json.load(open("/root/.vp/BASELINE.json"))
 env = dict(os.environ, GOFLAGS="-mod=mod", GOPROXY="off")
 env.pop("GOTOOLCHAIN", None)
+env.pop("GOSUMDB", None)
 p = subprocess.run(["go", "test", "-json", "-vet=off", "-count=1", "-timeout", "25m", "./..."], cwd=repo, env=env, capture_output=True, text=True)
 res = {}
 for line in p.stdout.splitlines():
